@@ -2,6 +2,7 @@ package core
 
 import (
 	"encoding/json"
+	"strings"
 	"fmt"
 	"os"
 	"path/filepath"
@@ -57,6 +58,7 @@ type ReplayFile struct {
 	TapeLenOriginal int  `json:"tape_len_original"`
 	Schedule  []string   `json:"schedule"` // rendered minimised schedule and fault trace
 	Trace     []string   `json:"trace"`
+	BySeed    bool       `json:"by_seed,omitempty"` // the run killed its process: replay re-runs the seed (no tape could be saved)
 }
 
 type Sample struct {
@@ -133,7 +135,7 @@ func WorkerMain(t *testing.T, eng Engine) {
 			t.Fatal(err)
 		}
 		tape := rf.Tape
-		if tape == nil {
+		if tape == nil && !rf.BySeed {
 			tape = []Choice{}
 		}
 		res := eng.Run(RunOpts{Prop: rf.Property, Seed: rf.Seed, Tape: tape, KeepLog: true, Thorough: rf.Thorough, Scratch: scratch, T: t})
@@ -208,7 +210,15 @@ func explore(t *testing.T, eng Engine, scratch, out string) {
 		if recordHashes {
 			seed = Mix(base, prop, "det", strconv.Itoa(k)) // same seeds in every worker: determinism self-test
 		}
-		res := eng.Run(RunOpts{Prop: prop, Seed: seed, Thorough: thorough, Scratch: scratch, T: t})
+		// marker: if this run kills the process (a panic in a daemon goroutine), the driver knows which seed did it
+		writeJSON(out+".cur", map[string]any{"seed": seed, "property": prop, "engine": eng.Name, "thorough": thorough})
+		dump := os.Getenv("VERIF_DUMP_LOG")
+		res := eng.Run(RunOpts{Prop: prop, Seed: seed, Thorough: thorough, Scratch: scratch, T: t, KeepLog: dump != ""})
+		if dump != "" {
+			os.MkdirAll(dump, 0o755)
+			os.WriteFile(filepath.Join(dump, fmt.Sprintf("%d.log", seed)), []byte(strings.Join(res.LogLines, "\n")), 0o644)
+		}
+		os.Remove(out + ".cur")
 		wo.Runs++
 		wo.Blocks += res.Blocks
 		wo.Txs += res.Txs
